@@ -277,10 +277,25 @@ fn guards(c: &Case) -> CaseResult {
         }
     }
     // unequal lengths: a Result, not a crash
+    // guards and parameter sets that do not match up (fewer or more parameter sets than guards, down
+    // to none): a Result, never a crash, and never an acceptance — an unmatched guard is unverified
     if n >= 1 {
-        let r = vpcore::catch(|| <DualMSM<Bls12> as Guard<F, KZGCommitmentScheme<Bls12>>>::batch_verify(have.iter().map(|(_, g)| g.clone()), params[1..].iter()));
-        if let Err(p) = r {
-            return Err(Failure::new("Guard::batch_verify:panic:length-mismatch", p));
+        let extra: Vec<_> = (0..n + 1).map(|_| vp.clone()).collect();
+        for (what, ps) in [("one-fewer", &params[1..]), ("none", &params[..0]), ("half", &params[..n / 2]), ("one-more", &extra[..])] {
+            if ps.len() == n {
+                continue;
+            }
+            let r = vpcore::catch(|| <DualMSM<Bls12> as Guard<F, KZGCommitmentScheme<Bls12>>>::batch_verify(have.iter().map(|(_, g)| g.clone()), ps.iter()));
+            match r {
+                Err(p) => return Err(Failure::new("Guard::batch_verify:panic:length-mismatch", p)),
+                Ok(Ok(())) => {
+                    return Err(Failure::new(
+                        format!("Guard::batch_verify:accepts-length-mismatch:{}", if expect { "all-valid" } else { "with-invalid-member" }),
+                        format!("{n} guards (individually {each:?}) with {} parameter sets ({what}) are accepted", ps.len()),
+                    ))
+                }
+                Ok(Err(_)) => {}
+            }
         }
     }
     // accumulators
